@@ -657,6 +657,12 @@ func genPrimAead(r *rand.Rand, n int) []string {
 			pt = randBytes(r, []int{65536, 65535, 65537, 65519, 100000, 65520, 65527, 65528, 65534}[(i/40)%9])
 			aad = randBytes(r, r.Intn(20))
 		}
+		if i%40 == 13 { // AES-CCM-64-*: plaintexts of 2^16 octets and more are fine there (the length field has 8 octets)
+			alg = []int{12, 13, 32, 33}[(i/40)%4]
+			k, nonce = randBytes(r, keySizeOf(alg)), randBytes(r, 7)
+			pt = randBytes(r, []int{65536, 70000, 65535, 131072}[(i/160)%4])
+			aad = randBytes(r, r.Intn(20))
+		}
 		if i%40 == 23 { // AAD lengths around 0xff00, where the RFC 3610 length prefix changes form
 			aad = randBytes(r, []int{65280, 65279, 65281, 66000, 65291, 65293, 69995, 65535, 65536}[(i/40)%9]) // incl. lengths 11..14 mod 16 in the long form
 			pt = randBytes(r, r.Intn(40))
